@@ -95,6 +95,54 @@ def d1_pseudo_family(ctx, repo, st):
            "" if ok else f"reset skips devices under {[A.norm(s.test) for s in sk]}", where=where(rs, rs.node))
 
 
+def d1_position_sources(ctx, repo, st):
+    """What is stashed as 'the initial position' of the set object: every definition of the stashed value that reaches the store is
+    one of the sources the documentation names - the located setpoint, obj.position, the value of the (single / first) read field - or
+    the 0 of a simulated run.  Anything else (a fallback on falsiness, the readback, an offset) makes 'initial + offset' start from a
+    different value for some device state."""
+    rule = "C24.D1-initial-position-source"
+    g = q.cfg(st, q.quiet_policy(repo))
+    stores = [s for s in A.walk_stmts(st.node.body) if isinstance(s, ast.Assign) and A.norm(s.targets[0]) == "initial_positions[obj]"]
+    if len(stores) != 1:
+        ctx.ob(rule, cname(st, None, "one store of the object's own initial position"), False, f"{len(stores)} store(s)", where=where(st, st.node))
+        return
+
+    def source(e):
+        if isinstance(e, ast.IfExp):
+            a, b = source(e.body), source(e.orelse)
+            return a if a.startswith("?") else b if b.startswith("?") else f"{a} | {b}"
+        if isinstance(e, ast.Constant) and e.value == 0 and not isinstance(e.value, bool):
+            return "0 (simulated)"
+        if isinstance(e, ast.Subscript) and A.const_str(e.slice) == "setpoint" and isinstance(e.value, ast.Name):
+            return "located setpoint"
+        if isinstance(e, ast.Attribute) and e.attr == "position" and A.norm(e.value) == "obj":
+            return "obj.position"
+        if isinstance(e, ast.Subscript) and A.const_str(e.slice) == "value" and isinstance(e.value, ast.Subscript) and isinstance(e.value.value, ast.Name):
+            return "value of a read field"
+        return "?" + A.short(e, 70)
+
+    def sources_at(nid, e, depth=4):
+        if isinstance(e, ast.Name) and depth > 0:
+            out = []
+            for kind, val, dn in q.reaching_defs(g, nid, e.id):
+                if kind == "assign" and val is not None:
+                    out += sources_at(dn.id, val, depth - 1)
+                else:
+                    out.append(f"?{e.id} ({kind})")
+            return out
+        if isinstance(e, ast.IfExp):
+            return sources_at(nid, e.body, depth) + sources_at(nid, e.orelse, depth)
+        return [source(e)]
+
+    nid = g.nodes_of(stores[0])[0]
+    got = sources_at(nid, stores[0].value)
+    bad = sorted({x for x in got if x.startswith("?")})
+    ok = bool(got) and not bad and "located setpoint" in got
+    ctx.ob(rule, cname(st, None, "stashed value = located setpoint / obj.position / read value (0 when simulated)"), ok,
+           "" if ok else (f"the stashed initial position can be {', '.join(b[1:] for b in bad)}: relative moves start from, and the reset returns to, a value that is not "
+                          "the device's initial position" if bad else "the located setpoint is no longer a source"), nontrivial=True, where=where(st, stores[0]))
+
+
 def _stash_hook(repo, wrapper):
     """The message processor handed to plan_mutator by the wrapper: a nested def, or the closure returned by a module-level
     factory.  -> (function node, owner Func, {name inside the hook: expression text in the wrapper})"""
@@ -244,6 +292,7 @@ def run(ctx):
     st = repo.func(PP, "__read_and_stash_a_motor")
     ok = any(A.norm(s) == "initial_positions[obj] = setpoint" for s in A.walk_stmts(st.node.body))
     ctx.ob("C24.D1-stash-before-first-set", cname(st, None, "initial_positions[obj] = the located / read setpoint"), ok, "" if ok else "stash target changed", where=where(st, st.node))
+    d1_position_sources(ctx, repo, st)
     d1_pseudo_family(ctx, repo, st)
     txt = A.norm(rw.node)
     i1, i2 = txt.find("plan = plan_mutator(plan, insert_reads)"), txt.find("plan = msg_mutator(plan, rewrite_pos)")
@@ -323,6 +372,10 @@ CLAIM = {
 P = "preprocessors.py"
 L = "plans.py"
 MUTANTS = [
+    ("a zero setpoint falls back to the readback (seed C24-c)",
+     [(P, "            setpoint = location[\"setpoint\"]\n", "            setpoint = location.get(\"setpoint\") or location[\"readback\"]\n")], "C24.D1"),
+    ("the readback is stashed instead of the setpoint",
+     [(P, "            setpoint = location[\"setpoint\"]\n", "            setpoint = location[\"readback\"]\n")], "C24.D1"),
     ("relative wrapper: 'already stashed' tracked in a separate set (seed C24-b)", [(P, "def relative_set_wrapper(plan, devices=None):", "def _stash_hook_factory(devs, stash, parents):\n    handled = set()\n\n    def insert_reads(msg):\n        eligible = (devs is None) or (msg.obj in devs)\n        if (msg.command == \"set\") and eligible and msg.obj not in handled:\n            handled.add(msg.obj)\n            return (\n                pchain(\n                    __read_and_stash_a_motor(msg.obj, stash, parents),\n                    single_gen(msg),\n                ),\n                None,\n            )\n        else:\n            return None, None\n\n    return insert_reads\n\n\ndef relative_set_wrapper(plan, devices=None):"), (P, "    def insert_reads(msg):\n        eligible = (devices is None) or (msg.obj in devices)\n        seen = msg.obj in initial_positions\n        if (msg.command == \"set\") and eligible and not seen:\n            return (\n                pchain(\n                    __read_and_stash_a_motor(msg.obj, initial_positions, coupled_parents),\n                    single_gen(msg),\n                ),\n                None,\n            )\n        else:\n            return None, None\n\n    plan = plan_mutator(plan, insert_reads)\n    plan = msg_mutator(plan, rewrite_pos)", "    insert_reads = _stash_hook_factory(devices, initial_positions, coupled_parents)\n    plan = plan_mutator(plan, insert_reads)\n    plan = msg_mutator(plan, rewrite_pos)")], "C24.D1-stash"),
     ("siblings of a pseudo axis not stashed", [(P, "        initial_positions[parent] = parent_pos\n        for c, p in zip(parent.pseudo_positioners, parent_pos):\n            initial_positions[c] = p", "        initial_positions[parent] = parent_pos")], "C24.D1-pseudo"),
     ("children of a moved parent not stashed", [(P, "    if obj in coupled_parents:\n        for c, p in zip(obj.pseudo_positioners, setpoint):\n            initial_positions[c] = p", "    if obj in coupled_parents:\n        pass")], "C24.D1-pseudo"),
@@ -339,5 +392,6 @@ MUTANTS = [
     ("rel_list_scan wraps scan instead of list_scan", [(L, "        return (yield from list_scan(detectors, *args, per_step=per_step, md=_md))\n\n    return (yield from inner_relative_list_scan())", "        return (yield from scan(detectors, *args, per_step=per_step, md=_md))\n\n    return (yield from inner_relative_list_scan())")], "C24.D3"),
 ]
 BENIGN = [
+    ("located setpoint chosen by a conditional expression", [(P, "        if location is None:\n            setpoint = 0\n        else:\n            setpoint = location[\"setpoint\"]\n", "        setpoint = 0 if location is None else location[\"setpoint\"]\n")]),
     ("relative wrapper: hook built by a module-level factory, same condition", [(P, "def relative_set_wrapper(plan, devices=None):", "def _stash_hook_factory(devs, stash, parents):\n    def insert_reads(msg):\n        eligible = (devs is None) or (msg.obj in devs)\n        if (msg.command == \"set\") and eligible and msg.obj not in stash:\n            return (\n                pchain(\n                    __read_and_stash_a_motor(msg.obj, stash, parents),\n                    single_gen(msg),\n                ),\n                None,\n            )\n        else:\n            return None, None\n\n    return insert_reads\n\n\ndef relative_set_wrapper(plan, devices=None):"), (P, "    def insert_reads(msg):\n        eligible = (devices is None) or (msg.obj in devices)\n        seen = msg.obj in initial_positions\n        if (msg.command == \"set\") and eligible and not seen:\n            return (\n                pchain(\n                    __read_and_stash_a_motor(msg.obj, initial_positions, coupled_parents),\n                    single_gen(msg),\n                ),\n                None,\n            )\n        else:\n            return None, None\n\n    plan = plan_mutator(plan, insert_reads)\n    plan = msg_mutator(plan, rewrite_pos)", "    insert_reads = _stash_hook_factory(devices, initial_positions, coupled_parents)\n    plan = plan_mutator(plan, insert_reads)\n    plan = msg_mutator(plan, rewrite_pos)")]),
 ]
